@@ -1355,6 +1355,118 @@ pub fn special_family(rng: &mut Rng, k: usize) -> TreeSpec {
     spec
 }
 
+/// header burn fee of a child block (Block::generate_consensus_values: the real formula, floored at 1)
+pub fn child_burnfee(parent_burnfee: u64, dt: u64) -> u64 {
+    let bf = saito_core::core::consensus::burnfee::BurnFee::calculate_burnfee_for_block(parent_burnfee, 1_000_000 + dt, 1_000_000, HEARTBEAT);
+    if bf == 0 {
+        1
+    } else {
+        bf
+    }
+}
+
+fn burnfee_sum(parent_burnfee: u64, dts: &[u64]) -> u128 {
+    let mut bf = parent_burnfee;
+    let mut sum = 0u128;
+    for d in dts {
+        bf = child_burnfee(bf, *d);
+        sum += bf as u128;
+    }
+    sum
+}
+
+/// Family "equal cumulative burn fee" (C05): common prefix of PRNG-chosen length ending in the fork
+/// point F, an old segment of `k` blocks (k = 1 or 2) and a candidate segment of k + 1 blocks whose
+/// timestamp offsets are searched with the real burn-fee formula so that the header burn fees of the
+/// two segments have exactly the same sum. Every block carries a golden ticket (density holds), all
+/// blocks are valid: the only thing deciding the reorganisation is length + burn fee, at the boundary
+/// old_bf == new_bf. Returns the spec with (indices of the old segment, indices of the candidate
+/// segment) in tree numbering, or Err(reason) when no timestamp in the searched range gives equality.
+pub async fn equal_bf_family(rng: &mut Rng, k: usize) -> Result<(TreeSpec, Vec<usize>, Vec<usize>), String> {
+    let gp = *rng.pick(&[8u64, 20, 20]);
+    let seg = 1 + k % 2; // old segment length
+    let prefix = rng.range(1, 4) as usize; // common blocks after genesis: fork point id = prefix + 1
+    let n_outputs = 8;
+    let mut nodes = vec![NodeSpec { parent: None, gt: false, invalid: false, dt: 0, spend: None, bad_spend: false, bf_boost: 0 }];
+    for i in 0..prefix {
+        let dt = *rng.pick(&[2 * HEARTBEAT, 3 * HEARTBEAT, 4 * HEARTBEAT, 10 * HEARTBEAT]) + rng.below(50);
+        nodes.push(NodeSpec { parent: Some(i), gt: true, invalid: false, dt, spend: Some(i % n_outputs), bad_spend: false, bf_boost: 0 });
+    }
+    let fork = prefix;
+    // burn fee of the fork point: read from the header of the block the real producer builds
+    let pre = build_tree(TreeSpec { gp, nodes: nodes.clone(), n_outputs, loading_completed: false, pab: 8, park_at: None, checkpoint: None, browser: false, dup_input_at: None }).await;
+    if pre.blocks.len() != prefix + 1 {
+        return Err("prefix not built".to_string());
+    }
+    let bf_f = pre.blocks[fork].burnfee;
+    if bf_f < 2 {
+        return Err("fork point burn fee too small".to_string());
+    }
+    // the burn fee of a child is round(parent_bf * sqrt(heartbeat / dt)): it takes every integer value
+    // once consecutive dt differ by less than one nolan, i.e. for values below about (200 * bf^2)^(1/3)
+    let tmax = (200.0 * (bf_f as f64) * (bf_f as f64)).cbrt() * 0.4;
+    let base = ((HEARTBEAT as f64) * (bf_f as f64 / tmax).powi(2)).ceil() as u64;
+    let base = base.max(3 * HEARTBEAT);
+    let mut found: Option<(Vec<u64>, Vec<u64>)> = None;
+    for _attempt in 0..80 {
+        let mut cand = vec![base + rng.below(3 * base)];
+        for _ in 0..seg {
+            cand.push(rng.range(2 * HEARTBEAT, 3000 * HEARTBEAT));
+        }
+        let mut old = vec![0u64];
+        for _ in 1..seg {
+            old.push(rng.range(2 * HEARTBEAT, 3000 * HEARTBEAT));
+        }
+        let target = burnfee_sum(bf_f, &cand);
+        let f = |d: u64| {
+            let mut o = old.clone();
+            o[0] = d;
+            burnfee_sum(bf_f, &o)
+        };
+        // f is non-increasing in d: smallest d with f(d) <= target
+        let (mut lo, mut hi) = (2 * HEARTBEAT, 64 * cand[0]);
+        if f(lo) < target || f(hi) > target {
+            continue;
+        }
+        while lo < hi {
+            let mid = lo + (hi - lo) / 2;
+            if f(mid) <= target {
+                hi = mid;
+            } else {
+                lo = mid + 1;
+            }
+        }
+        if f(lo) == target && lo != cand[0] {
+            old[0] = lo;
+            found = Some((old, cand));
+            break;
+        }
+    }
+    let (old, cand) = match found {
+        Some(x) => x,
+        None => return Err("no timestamp in range gives equal sums".to_string()),
+    };
+    let mut old_idx = vec![];
+    let mut parent = fork;
+    for (i, d) in old.iter().enumerate() {
+        nodes.push(NodeSpec { parent: Some(parent), gt: true, invalid: false, dt: *d, spend: Some((prefix + i) % n_outputs), bad_spend: false, bf_boost: 0 });
+        parent = nodes.len() - 1;
+        old_idx.push(parent);
+    }
+    let mut cand_idx = vec![];
+    parent = fork;
+    let conflict = rng.chance(1, 2);
+    for (i, d) in cand.iter().enumerate() {
+        // transfers conflicting with the old segment (same genesis outputs) or disjoint from it
+        let s = if conflict { prefix + i } else { prefix + seg + i };
+        nodes.push(NodeSpec { parent: Some(parent), gt: true, invalid: false, dt: *d, spend: Some(s % n_outputs), bad_spend: false, bf_boost: 0 });
+        parent = nodes.len() - 1;
+        cand_idx.push(parent);
+    }
+    let spec = TreeSpec { gp, nodes, n_outputs, loading_completed: rng.chance(1, 4), pab: *rng.pick(&[2u64, 3, 8]), park_at: None, checkpoint: None, browser: false, dup_input_at: None };
+    Ok((spec, old_idx, cand_idx))
+}
+
 /// a delivery order: parents-before-children mostly, sometimes shuffled, with duplicates
 pub fn random_order(rng: &mut Rng, n: usize, in_order_pct: u64, allow_orphans: bool, parents: &[Option<usize>]) -> Vec<usize> {
     let mut order: Vec<usize> = (0..n).collect();
@@ -1485,8 +1597,24 @@ pub async fn run_property(profile: &Profile, args: &Args) {
     let n_long = if thorough { 400 } else { 80 };
     let n_parked = if thorough { 96 } else { 24 };
     let n_special = if thorough { 108 } else { 36 };
-    for ti in 0..(n_trees + n_family + n_long + n_parked + n_special) {
-        let spec = if ti >= n_trees + n_family + n_long + n_parked {
+    // family "equal cumulative burn fee" (C05 only, generated after everything else so that the
+    // histories of the other families do not depend on it)
+    let n_base = n_trees + n_family + n_long + n_parked + n_special;
+    let n_equal = if profile.prop != "C05" { 0 } else if thorough { 24 } else { 8 };
+    for ti in 0..(n_base + n_equal) {
+        let mut equal_segs: Option<(Vec<usize>, Vec<usize>)> = None;
+        let spec = if ti >= n_base {
+            match equal_bf_family(&mut rng, ti - n_base).await {
+                Ok((spec, old_idx, cand_idx)) => {
+                    equal_segs = Some((old_idx, cand_idx));
+                    spec
+                }
+                Err(reason) => {
+                    summary.count("equal_bf_dropped_precondition", &reason);
+                    continue;
+                }
+            }
+        } else if ti >= n_trees + n_family + n_long + n_parked {
             let k = ti - n_trees - n_family - n_long - n_parked;
             // checkpoints roll the tip back (C05 would only see the height decrease); the density
             // bypass is a fork-choice matter (C05) and is also given to C03 for the consistency oracle
@@ -1513,6 +1641,27 @@ pub async fn run_property(profile: &Profile, args: &Args) {
         if t.blocks.len() < 2 {
             summary.count("tree_skipped_too_small", "true");
             continue;
+        }
+        if let Some((old_idx, cand_idx)) = &equal_segs {
+            // premise of the family, asserted on the real block headers: all blocks built and valid,
+            // every block with a golden ticket, candidate one block longer, sums of header burn fees equal
+            let built_all = t.blocks.len() == wanted_nodes;
+            let ok = built_all && {
+                let obf: u128 = old_idx.iter().map(|&i| t.blocks[i].burnfee as u128).sum();
+                let nbf: u128 = cand_idx.iter().map(|&i| t.blocks[i].burnfee as u128).sum();
+                obf == nbf
+                    && cand_idx.len() == old_idx.len() + 1
+                    && t.eff_invalid.iter().all(|x| !*x)
+                    && t.blocks.iter().skip(1).all(|b| b.has_golden_ticket)
+                    && t.blocks[old_idx[0]].previous_block_hash == t.blocks[cand_idx[0]].previous_block_hash
+            };
+            if !ok {
+                summary.count("equal_bf_dropped_precondition", if built_all { "header burn fees differ from the searched ones" } else { "producer dropped a block" });
+                continue;
+            }
+            let obf: u128 = old_idx.iter().map(|&i| t.blocks[i].burnfee as u128).sum();
+            summary.count("equal_bf_scenario", &format!("old {} blocks / candidate {} blocks, fork point id {}, gp {}", old_idx.len(), cand_idx.len(), t.blocks[old_idx[0]].id - 1, t.spec.gp));
+            summary.count("equal_bf_sum_magnitude", &format!("1e{}", (obf as f64).log10().floor() as i64));
         }
         let parents: Vec<Option<usize>> = t.spec.nodes.iter().map(|n| n.parent).collect();
         let mut int = intern_tree(&t);
@@ -1607,6 +1756,27 @@ pub async fn run_property(profile: &Profile, args: &Args) {
                     parked_block = Some(x);
                 }
             }
+            if let (Some((old_idx, cand_idx)), 4) = (&equal_segs, oi) {
+                // prefix, then a PRNG-chosen parent-respecting interleaving of the old segment with the
+                // candidate minus its last block, then the last candidate block (decides on the tie)
+                let first = old_idx[0];
+                let mut o: Vec<usize> = (0..first).collect();
+                let (mut a, mut b) = (0usize, 0usize);
+                let nb = cand_idx.len() - 1;
+                while a < old_idx.len() || b < nb {
+                    if b >= nb || (a < old_idx.len() && rng.chance(1, 2)) {
+                        o.push(old_idx[a]);
+                        a += 1;
+                    } else {
+                        o.push(cand_idx[b]);
+                        b += 1;
+                    }
+                }
+                o.push(cand_idx[nb]);
+                order = o;
+                parked_order = false;
+                parked_block = None;
+            }
             if profile.allow_orphans && !orphans_now && !loading && !parked_order {
                 // no orphan deliveries in this history: repair the order instead of dropping blocks
                 order = repair_order(&order, &parents);
@@ -1680,7 +1850,7 @@ pub async fn run_property(profile: &Profile, args: &Args) {
                 }
                 prev = o.clone();
             }
-            summary.count("generator", if ti >= n_trees + n_family + n_long + n_parked { "oracle-only" } else if ti >= n_trees + n_family + n_long { "parked" } else if ti >= n_trees + n_family { "long-chain" } else if family { "fork-family" } else { "random" });
+            summary.count("generator", if ti >= n_base { "equal-burn-fee" } else if ti >= n_trees + n_family + n_long + n_parked { "oracle-only" } else if ti >= n_trees + n_family + n_long { "parked" } else if ti >= n_trees + n_family { "long-chain" } else if family { "fork-family" } else { "random" });
             summary.count("blocks", &format!("{}", t.blocks.len()));
             summary.count("gp", &format!("{}", t.spec.gp));
             summary.count("reorgs", &format!("{}", reorgs.min(4)));
@@ -1691,6 +1861,22 @@ pub async fn run_property(profile: &Profile, args: &Args) {
             summary.count("loading_completed", &format!("{}", loading));
             summary.count("retry_or_too_old_answers", &format!("{}", out.obs.iter().filter(|o| o.code == 4).count().min(4)));
             summary.count("purge_known_class", out.first_purge_known.map(|(_, id)| id).unwrap_or("none"));
+            if let Some((old_idx, cand_idx)) = &equal_segs {
+                // did a delivery decide on the tie (old segment on chain, rest of the candidate stored,
+                // last candidate block arrives) and was the candidate adopted there
+                let mut tie = "not reached in this order";
+                for (kk, blk) in order.iter().enumerate() {
+                    if *blk == *cand_idx.last().unwrap() && kk > 0 {
+                        if let (Some(a), Some(b)) = (out.obs[kk - 1].snap.as_ref(), out.obs.get(kk).and_then(|o| o.snap.as_ref())) {
+                            let stored = |i: usize| a.blocks.iter().any(|x| x.0 == t.blocks[i].hash);
+                            if a.tip_hash == t.blocks[*old_idx.last().unwrap()].hash && cand_idx[..cand_idx.len() - 1].iter().all(|&i| stored(i)) && !stored(*blk) {
+                                tie = if b.tip_hash == t.blocks[*blk].hash { "candidate adopted" } else { "candidate refused" };
+                            }
+                        }
+                    }
+                }
+                summary.count("equal_bf_tie_decision", tie);
+            }
             let nontrivial = match profile.prop {
                 "C04" => rejected > 0,
                 _ => reorgs > 0 || t.blocks.iter().any(|b| b.transactions.len() > 1),
